@@ -4,6 +4,7 @@ package rules
 
 import (
 	"fmt"
+	"go/constant"
 	"go/token"
 	"go/types"
 	"sort"
@@ -288,6 +289,109 @@ func (e *Env) Reaches(from *ssa.Function, to func(*ssa.Function) bool) bool {
 	return false
 }
 
+// Contradicts reports whether taking the CFG edge from->Succs[idx] contradicts
+// one of the known literals (same SSA operands, complementary test). SSA values
+// are fixed within one loop iteration, so this pruning is only valid for path
+// searches that do not follow back edges.
+func (e *Env) Contradicts(known []ir.NLit, from *ssa.BasicBlock, idx int) bool {
+	i, ok := from.Instrs[len(from.Instrs)-1].(*ssa.If)
+	if !ok || len(from.Succs) != 2 {
+		return false
+	}
+	alts := e.Facts(from.Parent()).Alternatives(ir.Lit{Cond: i.Cond, Pol: idx == 0, If: i})
+	if len(alts) == 0 {
+		return false
+	}
+	for _, a := range alts {
+		l := ir.Normalize(a)
+		contra := false
+		for _, k := range known {
+			if l.Kind != k.Kind {
+				continue
+			}
+			if l.Kind == "val" && ir.Resolve(l.V) == ir.Resolve(k.V) && l.Pol != k.Pol {
+				contra = true
+			}
+			if l.Kind == "cmp" && sameOperand(l.X, k.X) && sameOperand(l.Y, k.Y) {
+				if (l.Op == token.EQL && k.Op == token.NEQ) || (l.Op == token.NEQ && k.Op == token.EQL) {
+					contra = true
+				}
+			}
+		}
+		if !contra {
+			return false
+		}
+	}
+	return true
+}
+
+func sameOperand(a, b ssa.Value) bool {
+	a, b = ir.Resolve(a), ir.Resolve(b)
+	if a == b {
+		return true
+	}
+	ca, oka := a.(*ssa.Const)
+	cb, okb := b.(*ssa.Const)
+	if oka && okb {
+		if ca.Value == nil || cb.Value == nil {
+			return ca.Value == nil && cb.Value == nil
+		}
+		return ca.Value.ExactString() == cb.Value.ExactString()
+	}
+	return false
+}
+
+// ReachesRepo is call-graph reachability restricted to edges whose resolution
+// does not depend on the over-approximation of library interfaces: static
+// calls, closures created in a function, and invocations of interfaces that
+// the repository itself declares (HistoryStore, DAGStore, Client, Executor ...).
+// Calls through library interfaces (io.Closer, slog.Handler ...) and through
+// function values other than local closures are not followed.
+func (e *Env) ReachesRepo(from *ssa.Function, to func(*ssa.Function) bool) bool {
+	seen := map[*ssa.Function]bool{}
+	stack := []*ssa.Function{from}
+	for len(stack) > 0 {
+		f := stack[len(stack)-1]
+		stack = stack[:len(stack)-1]
+		if f == nil || seen[f] {
+			continue
+		}
+		seen[f] = true
+		if to(f) {
+			return true
+		}
+		if !e.P.Funcs[f] {
+			continue
+		}
+		for _, a := range f.AnonFuncs {
+			stack = append(stack, a)
+		}
+		for _, b := range f.Blocks {
+			for _, in := range b.Instrs {
+				ci, ok := in.(ssa.CallInstruction)
+				if !ok {
+					continue
+				}
+				c := ci.Common()
+				if sc := c.StaticCallee(); sc != nil {
+					stack = append(stack, sc)
+					continue
+				}
+				if c.IsInvoke() && strings.HasPrefix(ir.NamedType(c.Value.Type()), load.ModulePath) {
+					if n := e.P.CG.Nodes[f]; n != nil {
+						for _, ed := range n.Out {
+							if ed.Site == ci {
+								stack = append(stack, ed.Callee.Func)
+							}
+						}
+					}
+				}
+			}
+		}
+	}
+	return false
+}
+
 // RepoFuncsSorted returns repository functions in a deterministic order.
 func (e *Env) RepoFuncsSorted() []*ssa.Function {
 	var out []*ssa.Function
@@ -335,3 +439,25 @@ func ConstVal(names map[int64]string, name string) int64 {
 }
 
 func sprintf(f string, a ...any) string { return fmt.Sprintf(f, a...) }
+
+// EnumOfString returns the constants of a named string type: value -> name.
+func (e *Env) EnumOfString(rel, typ string) (types.Type, map[string]string) {
+	sp := e.P.Pkg(rel)
+	out := map[string]string{}
+	if sp == nil {
+		return nil, out
+	}
+	t := sp.Type(typ)
+	if t == nil {
+		return nil, out
+	}
+	sc := sp.Pkg.Scope()
+	for _, name := range sc.Names() {
+		if c, ok := sc.Lookup(name).(*types.Const); ok && types.Identical(c.Type(), t.Type()) {
+			if c.Val().Kind() == constant.String {
+				out[constant.StringVal(c.Val())] = name
+			}
+		}
+	}
+	return t.Type(), out
+}
